@@ -4,8 +4,8 @@
 (* implied by the grammar of README / DESIGN 3.9):                          *)
 (*   no illegal character; brackets balance; a binary-only operator is not  *)
 (*   followed by another binary-only operator; a literal is never assigned  *)
-(*   to; `return` only inside a function body; `break`/`continue` only in   *)
-(*   a program that has a loop at all.                                      *)
+(*   to; `return` only inside a function body; `break`/`continue` only      *)
+(*   inside the body block of a loop.                                       *)
 (* Every host satisfies them (law); every spliced variant violates one      *)
 (* (law), hence is not a program, hence must be refused with a syntax error *)
 (* before anything runs (C11).  Splices: insert one of the catalogue at any *)
@@ -25,7 +25,9 @@ Hosts == <<
   Words("function f ( a , b ) { return a + b } BEGIN { print f ( 1 , 2 ) ; print \"b\" }"),
   Words("BEGIN { print match ( 1 ) { 1 => \"one\" , q => \"other\" } } END { print [ 1 , 2 ] [ 0 ] }"),
   Words("BEGIN { if ( 1 < 2 ) { print \"lt\" } else { print \"ge\" } ; print \"done\" } $ . a > 0 { print $ . a }"),
-  Words("BEGIN { print \"s\" } { if ( $ ~ /a/ ) { print \"m\" } ; o = { k : 1 } ; print o . k } END { print 1 + 2 * 3 }")
+  Words("BEGIN { print \"s\" } { if ( $ ~ /a/ ) { print \"m\" } ; o = { k : 1 } ; print o . k } END { print 1 + 2 * 3 }"),
+  Words("BEGIN { for ( k in [ 1 , 2 ] ) { print k } ; print \"x\" } END { n = 0 ; while ( n < 1 ) { n = n + 1 } ; print \"e\" }"),
+  Words("function g ( a ) { for ( i = 0 ; i < 2 ; i = i + 1 ) { print i } ; return a } BEGIN { print g ( 1 ) } { print \"r\" }")
 >>
 
 Openers == {"(", "[", "{"}
@@ -60,10 +62,22 @@ FnBody(ts, i, depth, pending, start) ==
                          \cup FnBody(ts, i + 1, depth - 1, pending, IF start = depth THEN 0 ELSE start)
     ELSE (IF start > 0 THEN {i} ELSE {}) \cup FnBody(ts, i + 1, depth, pending, start)
 ReturnInFn(ts) == \A i \in 1..Len(ts) : ts[i] = "return" => i \in FnBody(ts, 1, 0, FALSE, 0)
-BreakHasLoop(ts) == (\E i \in 1..Len(ts) : ts[i] \in {"break", "continue"}) => (\E i \in 1..Len(ts) : ts[i] \in {"while", "for"})
+\* positions inside the body block of a loop: the block opened by the first "{" after a
+\* for / while keyword (hosts never put a brace in a loop header), up to its matching "}"
+RECURSIVE LoopBody(_, _, _, _, _)
+LoopBody(ts, i, depth, pending, stack) ==
+  IF i > Len(ts) THEN {}
+  ELSE LET t == ts[i]
+           here == IF stack # <<>> THEN {i} ELSE {}
+       IN IF t \in {"for", "while"} THEN here \cup LoopBody(ts, i + 1, depth, TRUE, stack)
+          ELSE IF t = "{" THEN here \cup LoopBody(ts, i + 1, depth + 1, FALSE, IF pending THEN <<depth + 1>> \o stack ELSE stack)
+          ELSE IF t = "}" THEN here \cup LoopBody(ts, i + 1, depth - 1, pending,
+                                               IF stack # <<>> /\ Head(stack) = depth THEN Tail(stack) ELSE stack)
+          ELSE here \cup LoopBody(ts, i + 1, depth, pending, stack)
+BreakInLoop(ts) == \A i \in 1..Len(ts) : ts[i] \in {"break", "continue"} => i \in LoopBody(ts, 1, 0, FALSE, <<>>)
 
 WellFormed(ts) == /\ NoIllegal(ts) /\ Balanced(ts) /\ NoBinBin(ts) /\ NoLiteralAssign(ts)
-                  /\ ReturnInFn(ts) /\ BreakHasLoop(ts)
+                  /\ ReturnInFn(ts) /\ BreakInLoop(ts)
 
 Catalogue == << <<"@">>, <<")">>, <<"]">>, <<"}">>, <<"(">>, <<"==", "*">>, <<"1", "=", "2">>, <<"return">>, <<"break">>, <<"continue">> >>
 
@@ -78,8 +92,11 @@ Spliced == LET ts == Hosts[h] IN
   IF sp = 0 THEN SubSeq(ts, 1, pos - 1) \o SubSeq(ts, pos + 1, Len(ts))
   ELSE SubSeq(ts, 1, pos) \o Catalogue[sp] \o SubSeq(ts, pos + 1, Len(ts))
 
-\* a `return` spliced into the function body of host 2 is no static error there: not a splice of this family
-Applicable == ~(sp > 0 /\ Catalogue[sp] = <<"return">> /\ ReturnInFn(Spliced))
+\* a `return` spliced into a function body, or a break / continue spliced into a loop body,
+\* is no static error there: not a splice of this family
+Applicable ==
+  /\ ~(sp > 0 /\ Catalogue[sp] = <<"return">> /\ ReturnInFn(Spliced))
+  /\ ~(sp > 0 /\ Catalogue[sp] \in {<<"break">>, <<"continue">>} /\ BreakInLoop(Spliced))
 
 HostsWellFormed == \A i \in 1..Len(Hosts) : WellFormed(Hosts[i])
 SplicedIllFormed == (done /\ Applicable) => ~WellFormed(Spliced)
